@@ -76,6 +76,7 @@ var forms = []string{
 	"goto-label-return",        // if c { goto done }; return lit0; done: return lit1
 	"defer-and-closure-noise",  // defer func() { _ = func() int { return 9 }() }(); return lit1
 	"shadowing-local-consts",   // const w = "f<i>"; const n = 10+i; return w + w, n * 2: same text, another meaning per function
+	"local-iota-consts",        // const ( off = iota; on; unit = 1 << (10 * iota) ); return on / unit: constants only the declaration can evaluate
 	"own-call-then-forward",    // if c { return ..., dep.Fail() }; then forward / call-assign fK: caller and callee share a callee
 	"variadic-spread-call",     // return ..., joinAll(errList...)      ([]error spread into ...error)
 	"variadic-listed-call",     // return ..., joinAll(errSentinel, errOther)
@@ -114,6 +115,19 @@ func (p Prog) body(i int) (src string, want [][]string) {
 		return "if cond {\n\t\t" + ret(0) + "\n\t}\n\t" + ret(1), wantOf(0, 1)
 	case "switch-returns":
 		return "switch {\n\tcase cond:\n\t\t" + ret(0) + "\n\tdefault:\n\t\t" + ret(1) + "\n\t}", wantOf(0, 1)
+	case "local-iota-consts":
+		var e1, e2 []string
+		for _, t := range ts {
+			switch t {
+			case "int":
+				e1, e2 = append(e1, "on"), append(e2, "unit")
+			case "string":
+				e1, e2 = append(e1, "name"), append(e2, "name")
+			default:
+				e1, e2 = append(e1, "nil"), append(e2, "nil")
+			}
+		}
+		return "const (\n\t\toff = iota\n\t\ton\n\t\tunit = 1 << (10 * iota)\n\t)\n\tconst name = \"n\" + string(rune('a'+iota))\n\t_, _, _, _ = off, on, unit, name\n\tif cond {\n\t\treturn " + strings.Join(e1, ", ") + "\n\t}\n\treturn " + strings.Join(e2, ", "), nil
 	case "own-call-then-forward":
 		first := ""
 		if ts[len(ts)-1] == "error" {
